@@ -385,7 +385,7 @@ for tier, insts in (('quick', C17_Q), ('thorough', C17_T)):
         add(H('C17', f"c17_unary_{i.tag}", 'c17_unary', f"{i.n + 2}, {i.U}, {i.I}, {i.digit}, {i.n}", tier=tier, inst=i.label, funcs='Not, Neg (value and reference), Default', bound='all values'))
         add(H('C17', f"c17_digit_add_{i.tag}", 'c17_digit_ops', f"{i.n + 2}, {i.U}, {i.digit}, {i.n}, any, false", tier=tier, inst=i.label,
               funcs='BUint + digit', bound='all values and digits with a representable sum'))
-for i, tier, cap in ((I(8, 1), 'quick', 900), (I(64, 1), 'quick', 900), (I(8, 3), 'thorough', 5400), (I(64, 2), 'thorough', 5400)):
+for i, tier, cap in ((I(8, 1), 'quick', 1200), (I(16, 1), 'quick', 1200), (I(64, 1), 'thorough', 3600), (I(8, 3), 'thorough', 5400), (I(64, 2), 'thorough', 5400)):
     for sg, T in (('u', i.U), ('i', i.I)):
         nm = 'BUint' if sg == 'u' else 'BInt'
         add(H('C17', f"c17_shift_forms_{sg}_{i.tag}", 'c17_shift_forms', f"{i.n + 2}, {T}, {i.digit}, {i.n}", tier=tier, inst=i.label, cap=cap, core=(tier == 'quick'), mem_gb=24,
@@ -584,6 +584,15 @@ OUTSIDE = {
     'C14': ['int -> float above 192 bits (quick) / for non-u64 digit types above 128 bits'],
     'C15': ['nightly-only *_bytes methods', 'slices for widths above 128 bits', 'big-endian targets'],
     'C19': ['negative non-zero floats into unsigned targets (unconstrained by the property)'],
+    'C02': ['exact full-operand products above 16 bits (digit product abstracted as an uninterpreted function there)', 'N > 4'],
+    'C03': ['Knuth algorithm D on full operands above 16 bits (boundary alphabet instead)', 'widths above 24 bits in the quick tier'],
+    'C04': ['panic message text', 'multiplying / dividing operators above 8 bits (quick tier)'],
+    'C08': ['pow and ilog(base) above 8 bits (quick tier), above 16 bits (thorough tier)'],
+    'C11': ['N >= 2 in the quick tier, N >= 3 in every tier', 'values above 65535 for 32/64-bit digit types'],
+    'C16': ['decimal parsing / printing across configurations', 'mul/div/pow equivalence above 16 bits outside the boundary alphabet'],
+    'C17': ['Mul/Div/Rem operator forms above 8 bits (quick tier)'],
+    'C18': ['sqrt / cbrt / nth_root on general values', 'Integer arithmetic above 8 bits (quick tier)'],
+    'C20': ['range sampling above 8 bits (quick) / 16 bits (thorough)', 'RNG streams with more than 2 consecutive rejections', 'statistical quality of the underlying RNG'],
 }
 ASSUME = {
     'C01': ['from_digits/from_bits/digits()/to_bits are the identity on the digit array (decided under C13)'],
@@ -643,6 +652,50 @@ CLAIMS = {
                   'AsPrimitive::as_ return Some exactly for representable values, with the right value, and never panic.',
                   'widths outside {8, 24, 16, 64, 128} (+ 16/48/32/192/136 thorough); negative non-zero floats into unsigned targets are left unconstrained, as the property does.',
                   'range test on the extended bit pattern; independent IEEE-754 decode for floats'),
+    'C02': _claim('overflowing_mul (low half + flag), its checked/wrapping/saturating/strict projections, widening_mul and carrying_mul: exact against the primitive product at 8 and 16 bits; '
+                  'at 24 and 128 bits (u8 and u64 digits) for ALL operands with the digit product abstracted as an uninterpreted function constrained only by P<=(B-1)^2, P=0 iff a factor is 0, '
+                  'functional consistency and commutativity (bnum\'s private digit::*::carrying_mul/widening_mul replaced via kani::stub); exact arithmetic on boundary-alphabet digits at 32 bits; '
+                  'and the real digit kernels of all four digit types against the double-width primitive product (public N=1 API and the verif_hooks wrappers).',
+                  'exact full-operand products above 16 bits (covered modulo the abstraction + the kernel checks); N > 4.',
+                  'primitive double-width product; sum of abstract digit products over a 2N-digit accumulator'),
+    'C03': _claim('/ and % satisfy n = q*d + r, |r| < |d| with the sign rule, and every checked/wrapping/overflowing/saturating/strict/euclid/floor/ceil/next_multiple_of form is derived from that pair '
+                  'by exact integer reasoning (incl. the MIN / -1 projections and None for a zero divisor): all operands at 8 bits, the non-Knuth paths at 16 bits (u8 digits), single-digit 16-bit, '
+                  'and Knuth D on 24-bit operands whose digits range over the boundary alphabet.',
+                  'Knuth algorithm D on full operands above 16 bits (8-value alphabet per digit instead); the 16-bit Knuth path, 32/64/128-bit instantiations and the projections above 8 bits are thorough-tier only.',
+                  'postcondition in the narrowest primitive holding the products'),
+    'C04': _claim('operators + - * / % unary -, << >> with each of the 12 primitive amount types, pow, abs, next_power_of_two, next_multiple_of: in debug mode no panic and the exact value when the '
+                  'result is representable / the amount is in 0..BITS, and NO return when it is not (must-panic harness with an unreachable cover); in release mode (debug assertions off, compiled separately) '
+                  'no panic and the wrapped value; zero divisor, MIN / -1, MIN % -1, ilog of non-positive / base < 2 and strict_* panic in both modes; checked_* and the non-dividing '
+                  'wrapping_/overflowing_/saturating_ methods never panic for unconstrained arguments.',
+                  'panic message text; multiplying/dividing operators above 8 bits (16 thorough); shifts by bnum-typed amounts (C17).',
+                  'the overflow flag of the overflowing_* twin (whose exactness is C01/C02/C05/C08) and the explicit amount range'),
+    'C08': _claim('overflowing/checked/wrapping/saturating/strict pow for all 8-bit bases and exponents over ALL of u32 (signed and unsigned), ilog/ilog2/ilog10 and their checked forms for all 8-bit '
+                  '(self, base) pairs, and ilog2 as highest-set-bit for 8..320-bit types.',
+                  'pow and ilog(base) above 8 bits in the quick tier (16 bits in the thorough tier).',
+                  'independent LSB-first square-and-multiply in exact-with-cap arithmetic; b^k <= x < b^(k+1)'),
+    'C11': _claim('to_radix_le/to_radix_be/to_str_radix produce the canonical numeral (digits < radix, no leading zero, [0] for zero, lowercase, Horner value == input, leading - for negatives) and '
+                  'round-trip through from_radix_*/from_str_radix, for all 8-bit values at 12 radices (all 255 radices in the thorough tier) and for the digit-size-dependent branches of u16/u32/u64 digits.',
+                  'N >= 2 (16-bit u8-digit values are thorough-tier only); N >= 3 never; values above 65535 for 32/64-bit digits.',
+                  'postcondition + uniqueness of positional notation'),
+    'C16': _claim('the same operation in two digit-type representations of the same width (16, 32, 64, 128 bits) gives the same result after an As cast (add/sub/neg/cmp/bitwise/counts/shifts/rotates/'
+                  'saturating/casts for all operands; mul/div/rem/pow at 16 bits); zero-/sign-extension into a wider type commutes with add/sub/cmp/shl (and mul/div/rem/pow from 8 to 16 bits) whenever the '
+                  'narrow result is representable; the associated constants and the aliases U128..I8192 denote the advertised values.',
+                  'decimal parsing/printing across configurations (checked per type in C10/C11); mul/div/pow equivalence above 16 bits outside the boundary alphabet.',
+                  'the other representation of the same value (miter), As casts verified in C09'),
+    'C17': _claim('for every operator trait impl the seven forms (v op v, &v op v, v op &v, &v op &v, op=, op= &, const inherent twin) compute the value of the inherent method and panic exactly when it does; '
+                  'Shl/Shr reference and assign forms for the 12 primitive amount types (in-range value, out-of-range panic) and bnum-typed amounts below BITS; Neg/Not; Default; Sum/Product over slices of '
+                  'length 0..=3 equal the left fold; BUint op digit equals the full-width operation.',
+                  'FromStr (C10) and PartialOrd/Ord (C07) are decided there; Mul/Div/Rem forms above 8 bits are thorough-tier.',
+                  'the inherent method on the same operands; overflow flag / zero divisor as panic predicate'),
+    'C18': _claim('the num_traits forwarders equal the inherent methods; PrimInt signed/unsigned shifts bit-indexed; Signed; Integer::div_floor/mod_floor/div_rem/divides/is_multiple_of, Euclid, Pow, MulAdd, '
+                  'gcd and lcm exact against i32 arithmetic for all 8-bit operands; Roots only for degree 1, receivers 0 and 1, and the documented panics.',
+                  'sqrt/cbrt/nth_root on general values (num-integer\'s u128 Newton iteration and 136-bit+ division are out of the solver\'s reach); Integer arithmetic above 8 bits (16 thorough).',
+                  'inherent methods; exact i32 arithmetic; Euclid\'s algorithm'),
+    'C20': _claim('with a symbolic RNG stream: gen_range / Uniform::sample / sample_single(_inclusive) stay inside the requested range for all bounds (8-bit types); the accepted RNG words are unbiased - '
+                  'a relational two-run query shows that word L(h)+k is accepted with offset h for one offset iff it is for every other offset, hence every value has the same number of preimages; '
+                  'Standard and Fill/try_fill_slice take every byte of every digit from the stream in little-endian order (8..128 bits).',
+                  'sampling above 8 bits in the quick tier (16 bits thorough; the range multiplication is a full multiplier); streams with more than 2 consecutive rejections; statistical quality of the RNG.',
+                  'order comparison on exact integers; L(h) = ceil(h*2^W/R) computed in the harness'),
 }
 NOT_APPLICABLE = {f'C{n:02d}': 'check not built yet in this revision of /verif (work in progress)' for n in range(1, 21)}
 NOT_APPLICABLE['C12'] = ('formatting traits: Kani 0.68 mis-encodes the `if s.is_empty() {"0"} else {&s}` &str expression used by bnum fmt (spurious '
